@@ -20,6 +20,8 @@ class ThreadGen:
                 ops.append('hbget')
             for _ in range(r.randrange(0, 3)):
                 ops.append(r.choice(['gid', 'hbget', 'gid']))
+            if r.random() < 0.5:
+                ops.append(f'hold {r.randrange(10, 90)}')   # keep the ID while others start and look for one
             return ops
         if r.random() < 0.5:
             ops += ['gid', 'hbget']
